@@ -2,6 +2,7 @@ package an
 
 import (
 	"encoding/json"
+	"regexp"
 	"fmt"
 	"os"
 	"path/filepath"
@@ -64,6 +65,7 @@ func (r *Report) Add(rule, fn, construct, at string, ok bool, msg string) *Oblig
 	if _, has := r.rules[id]; !has {
 		r.Rule(id, 1, "")
 	}
+	construct = NormalizeConstruct(construct)
 	o := &Obligation{Property: r.Property, Rule: id, Func: fn, Construct: construct, At: at, OK: ok, Msg: msg}
 	o.Key = r.Property + "/" + rule + "/" + fn + "/" + construct
 	// keys must be unique: number duplicates deterministically
@@ -84,6 +86,15 @@ func (r *Report) Add(rule, fn, construct, at string, ok bool, msg string) *Oblig
 	}
 	r.Funcs[fn] = true
 	return o
+}
+
+var regName = regexp.MustCompile(`:t[0-9]+`)
+
+// NormalizeConstruct removes SSA register numbers from access paths used in
+// obligation keys (call:f:t8 -> call:f, phi:t9 -> phi, alloc:t12 -> alloc):
+// keys must survive edits that merely renumber registers.
+func NormalizeConstruct(s string) string {
+	return strings.ReplaceAll(regName.ReplaceAllString(s, ""), " ", "-")
 }
 
 func (r *Report) Anchor(name, val string) { r.Anchors[name] = val }
